@@ -16,7 +16,7 @@ from vt import core, dsw, gen, build as B
 
 PROP = 'C18'
 RULE = ('worlds = one shared constraint spec each (AtMostKInARow, AtLeastKInARow, ExactlyK, ExactlyKInARow, Pin first/last, Exclude, Sequential, '
-        'two constraints together); menu of 11 constructions; all histories of depth <= 3 (thorough 4); states = distinct canonical '
+        'two constraints together); menu of 12 constructions; all histories of depth <= 3 (thorough 4); states = distinct canonical '
         'states, transitions = constructions executed; non-trivial = the history builds >= 2 blocks of different geometry that share '
         'a constraint object.')
 ASSUMPTIONS = ['the observations compared are all models of the compiled formula (projected, decoded by the library) and the mismatch checker verdicts; '
@@ -68,6 +68,9 @@ def menu(cs):
         # the shared constraint given to the COMBINATOR (whole-sequence scope)
         {'op': 'repeat', 'block': cb(['A', 'B'], ['A'], []), 'constraints': cs + [{'c': 'MinimumTrials', 'k': 4}]},
         {'op': 'nest', 'outer': gen.cross(['C'], ['C']), 'inner': cb(['A', 'B'], ['A'], []), 'constraints': [c for c in cs if c['c'] != 'Exclude']},
+        # a block with a Transition factor in its crossing used as the OUTER block of a Nest (its sustain count differs there)
+        {'op': 'nest', 'outer': gen.cross(['A', 'TA'], ['TA'], []), 'inner': gen.cross(['C'], ['C']), 'constraints': [],
+         'alignment': 'post preamble'},
         # ONE outer block object (with a MinimumTrials of its own) used by several combinators
         {'op': 'nest', 'outer': {'op': 'shared', 'name': 'outer', 'block': gen.cross(['C'], ['C'], [{'c': 'MinimumTrials', 'k': 3}])},
          'inner': cb(['A', 'B'], ['A']), 'constraints': []},
